@@ -44,7 +44,8 @@ func init() {
 		Technique: "history monitor over the real FilePV: release-set oracle (conflict / regression / record-on-disk), with the crash points of selected requests enumerated (file states a crash can leave; real syscall faults and SIGKILLs injected with strace into a child that runs the request)",
 		Rule: "case = one key's lifetime: <=40 vote/proposal signing requests (HRS walk with repeats, timestamp-only repeats, same-HRS other block/chain/POL, nil ids, step/round/height regressions, huge heights, odd timestamps) with reloads from disk at random points. " +
 			"For selected requests that rewrite the key file the crash points are enumerated: state OLD (crash before the rename, stray temp file present; nothing released) and state NEW (crash after the rename, judged as the stricter 'signature already released' point); from each the key is reloaded and the interrupted request is re-issued with the same and with a different payload in both orders, followed by a random continuation, all under the same oracle. " +
-			"Some cases additionally run the request of one position in a child process under strace with every syscall of WriteFileAtomic failing / the child being SIGKILLed before it. " +
+			"quick enumerates ~2 writing requests per case this way, thorough every writing request. " +
+			"One case in 32 additionally runs one writing request in a child process under strace with each syscall of WriteFileAtomic (openat, write, close, renameat, unlinkat) failing and, separately, the child SIGKILLed on entering it (plus kill before / exit after handing the signature out); the sequence continues from whatever that process left on disk. " +
 			"non-trivial = at least one release, one reload after a release, one refused same-HRS conflicting request, one refused regression and one enumerated crash point; distinct by hash of the request sequence",
 		Assumptions: []string{
 			"crash = process death; the kernel keeps completed syscalls (power loss / lost directory entries after rename are out of reach)",
@@ -52,30 +53,57 @@ func init() {
 			"lane b assumes the key file is replaced by rename (checked per write by inode change; an observed in-place write switches to enumerating truncated states)",
 			"SignVoteWithoutSave/SignData are outside the property's request alphabet: exercised in separate sub-run cases whose oracle hits are counted as diag_* only",
 		},
-		Cases: func(tier string) int {
-			if tier == "thorough" {
-				return 24000
-			}
-			return 1200
-		},
+		Cases:  cases,
 		Run:    run,
 		Floors: floors,
 		Init:   core.QuietLogs,
 		Extra: func(tier string, counters map[string]int64) map[string]interface{} {
 			return map[string]interface{}{
 				"exhaustive": map[string]interface{}{
-					"file_states_per_enumerated_request": "both states reachable through WriteFileAtomic (OLD+stray temp, NEW) x both re-issue orders",
-					"requests_enumerated":                counters["crash_requests_enumerated"],
-					"crash_points_enumerated":            counters["crash_points_enumerated"],
-					"strace_fault_points_executed":       counters["strace_points_executed"],
+					"lane_b_per_enumerated_request": "both key-file states reachable through WriteFileAtomic (OLD + stray temp file, NEW) x both re-issue orders (same payload first / other payload first)",
+					"lane_a_per_strace_request":     "12 points: openat/write/close/renameat x {error, SIGKILL on entry} (write: EIO and ENOSPC), unlinkat SIGKILL (= after the rename), SIGKILL before the signature is handed out, process exit right after handing it out; each verified in the strace log, unverified ones are counted as miscalibrated and not claimed",
+					"requests_enumerated":           counters["crash_requests_enumerated"],
+					"crash_points_enumerated":       counters["crash_points_enumerated"],
+					"strace_fault_points_executed":  counters["strace_points_executed"],
 				},
 			}
 		},
 	})
 }
 
+func cases(tier string) int {
+	if tier == "thorough" {
+		return 20000
+	}
+	return 1200
+}
+
+// floors: about half of the minimum seen over seeds 1..5 in the quick tier, per case
+// (the thorough tier enumerates every writing request, so it lies far above them).
 func floors(tier string) map[string]int64 {
-	return map[string]int64{}
+	perCase := map[string]float64{
+		"requests":                        27,
+		"disk_checks":                     27,
+		"releases_fresh":                  10,
+		"releases_replayed_original":      5.8,
+		"replays_with_original_timestamp": 2.8,
+		"refused_regression":              3.5,
+		"refused_same_hrs":                7,
+		"reloads":                         1.6,
+		"crash_requests_enumerated":       0.9,
+		"crash_points_enumerated":         1.8,
+		"crash_branches":                  3.8,
+		"save_failure_probes":             0.45,
+		"strace_requests_enumerated":      0.014,
+		"strace_points_executed":          0.16,
+		"nosave_calls":                    0.4,
+	}
+	n := float64(cases(tier))
+	out := map[string]int64{}
+	for k, v := range perCase {
+		out[k] = int64(v * n)
+	}
+	return out
 }
 
 // ---------------------------------------------------------------- requests
@@ -540,7 +568,7 @@ func (t *timeline) report(key, detail string, extra interface{}) {
 func poolStrings(pool []types.BlockID) []string {
 	var s []string
 	for _, b := range pool {
-		s = append(s, fmt.Sprintf("%x:%d:%x", b.Hash[:4], b.PartsHeader.Total, []byte(b.PartsHeader.Hash)[:4]))
+		s = append(s, fmt.Sprintf("%x:%d:%x", b.Hash[:], b.PartsHeader.Total, []byte(b.PartsHeader.Hash)))
 	}
 	return s
 }
